@@ -1265,6 +1265,18 @@ def oracle_promo(h):
     cfg = peer_cfgs(h)
     npeers_all = 1 + max([0] + [p for p in cfg])
     handed = None
+    peers_now, many = h.nclients + 1, False
+    window = None
+    raw = []
+    for i, e in enumerate(h.events):
+        if e["ev"] == "late_join":
+            peers_now += 1
+        if e["ev"] == "promotion":
+            many = many or peers_now >= 3
+            window = [i, None, e["host"]]
+        if e["ev"] == "handover" and window is not None:
+            window[1] = i
+    fails = raw
     for i, e in enumerate(h.events):
         if e["ev"] == "promotion" and not e["sent"]:
             fails.append(("C07", "the promotion could not even be requested (no connected client)", {}))
@@ -1322,4 +1334,93 @@ def oracle_promo(h):
                     if pa != pb:
                         fails.append(("C07", "peer %d has a different parent link than the new host" % p, {"uuid": u[:8]}))
                         break
-    return fails
+    return classify_promo(h, fails)
+
+
+def classify_promo(h, fails):
+    """recorded findings, recognised by their histories: D7 — any hand-over in a session that has two or more clients at
+    the time; D18 — an entity the former host marked during the hand-over of a one-client session"""
+    peers_now, many = h.nclients + 1, False
+    windows = []
+    for i, e in enumerate(h.events):
+        if e["ev"] == "late_join":
+            peers_now += 1
+        if e["ev"] == "promotion":
+            many = many or peers_now >= 3
+            windows.append([i, len(h.events), e["host"]])
+        if e["ev"] == "handover" and windows:
+            windows[-1][1] = i
+    binds = {b["h"]: b["uuid"] for b in h.events if b["ev"] == "bind"}
+    touched = set()      # uuids some application touched while the hand-over was under way
+    for a, b, old in windows:
+        for e in h.events[a:b]:
+            # the recorded cases: anything the former host's application does; marks and links made on the promoted peer
+            # (a component written there is repaired by the snapshot the former host requests and stays checked)
+            if e["ev"] == "op" and e.get("h") in binds and (
+                    (e["peer"] == old and e["op"] in ("spawn", "write", "set_parent", "despawn"))
+                    or (e["peer"] != old and e["op"] in ("spawn", "set_parent"))):
+                touched.add(binds[e["h"]][:8])
+                if e.get("parent") in binds:
+                    touched.add(binds[e["parent"]][:8])
+    # uuids no application operation is bound to (a peer in both roles processed one mark twice) that first show up after a promotion
+    known = set(u[:8] for u in binds.values())
+    first_window = windows[0][0] if windows else len(h.events)
+    before = set()
+    for e in h.events[:first_window]:
+        if e["ev"] == "frame" and e.get("state"):
+            before |= set(x["uuid"][:8] for x in e["state"]["ents"])
+    ghosts = set()
+    for e in h.events[first_window:]:
+        if e["ev"] == "frame" and e.get("state"):
+            for x in e["state"]["ents"]:
+                if x["uuid"][:8] not in known and x["uuid"][:8] not in before:
+                    ghosts.add(x["uuid"][:8])
+    touched |= ghosts
+    out = []
+    for f in fails:
+        uu = list(f[2].get("only_peer", [])) + list(f[2].get("only_host", [])) + ([f[2]["uuid"]] if "uuid" in f[2] else [])
+        if many:
+            out.append((f[0], "promotion in a session with two or more clients: " + f[1], f[2]))
+        elif uu and all(u in touched for u in uu):
+            out.append((f[0], "a change an application made during the hand-over is lost, duplicated or left divergent: " + f[1], f[2]))
+        else:
+            out.append(f)
+    return out
+
+
+def promo_lines(h):
+    """first hand-over of a two-peer session: every frame of the former host and of the promoted client between the
+    promotion request and the end of the hand-over, with the network's part read off the trace (message delivered to this
+    frame? connection accepted / reported in this frame?), replayed on the model; roles, flag, transports and client
+    counts compared after every frame, the number of snapshot requests at the end"""
+    out = []
+    if h.nclients != 1:
+        return out
+    pis = [i for i, e in enumerate(h.events) if e["ev"] == "promotion"]
+    his = [i for i, e in enumerate(h.events) if e["ev"] == "handover"]
+    if not pis or not his or not h.events[pis[0]]["sent"] or h.events[pis[0]]["host"] != 0:
+        return out
+    start, end = pis[0], his[0]
+    script = []
+    prev = {0: last_state(h, start, 0), 1: last_state(h, start, 1)}
+    reqs = 0
+    b = lambda x: "1" if x else "0"
+    for e in h.events[start:end]:
+        if e["ev"] != "frame" or e["peer"] not in (0, 1) or e.get("state") is None:
+            continue
+        st, pv = e["state"], prev[e["peer"]]
+        kinds = [m["msg"]["k"] for m in e["recv"]]
+        if e["peer"] == 0:
+            progress = st["client_connected"] and not (pv or {}).get("client_connected", False)
+            script.append("h:%s:%s" % (b("newhost" in kinds), b(progress)))
+            cli = 0 if not st["client_transport"] else (3 if st["client_connected"] else 1)
+            script.append("xh:%s:%s:%d:%d" % (b(st["server_transport"]), b(st["tracker"]["promo"]), cli, st["server_clients"]))
+        else:
+            accepted = st["server_clients"] > (pv or {}).get("server_clients", 0)
+            reqs += sum(1 for k in kinds if k == "reqsync")
+            script.append("p:%s:%s" % (b("promote" in kinds), b(accepted)))
+            script.append("xp:%s:%s:%s:%d" % (b(st["server_transport"]), b(st["tracker"]["promo"]), b(st["client_transport"]), st["server_clients"]))
+        prev[e["peer"]] = st
+    script.append("q:%d" % reqs)
+    out.append("promo %s/handover 0 %s" % (h.id, ";".join(script)))
+    return out
